@@ -156,6 +156,12 @@ def _txt(obj, raw_text):
     return raw_text.get(id(obj), obj['text'])
 
 
+def _sp(obj, raw_text):
+    """xml:space="preserve" for the elements listed under raw_text['__preserve__'] (their text is kept verbatim
+    by the loader, so the dict holds the literal text)"""
+    return [('xml:space', 'preserve')] if id(obj) in raw_text.get('__preserve__', ()) else []
+
+
 def _lexicon(w, lex, rt):
     tag = 'LexiconExtension' if lex.get('extends') else 'Lexicon'
     w.open(tag, [('id', lex['id']), ('label', lex['label']), ('language', lex['language']),
@@ -179,10 +185,10 @@ def _lexicon(w, lex, rt):
 def _formkids(w, f, rt):
     for p in f.get('pronunciations', []):
         w.text('Pronunciation', _txt(p, rt),
-               [('variety', p.get('variety')), ('notation', p.get('notation')),
+               _sp(p, rt) + [('variety', p.get('variety')), ('notation', p.get('notation')),
                 ('phonemic', _bool(p.get('phonemic'), w.st)), ('audio', p.get('audio'))])
     for t in f.get('tags', []):
-        w.text('Tag', _txt(t, rt), [('category', t['category'])])
+        w.text('Tag', _txt(t, rt), _sp(t, rt) + [('category', t['category'])])
 
 
 def _haskids(f):
@@ -231,7 +237,7 @@ def _relation(w, tag, r):
 
 
 def _example(w, x, rt):
-    w.text('Example', _txt(x, rt), [('language', x.get('language'))], x.get('meta'))
+    w.text('Example', _txt(x, rt), _sp(x, rt) + [('language', x.get('language'))], x.get('meta'))
 
 
 def _sense(w, s, rt):
@@ -276,10 +282,11 @@ def _synset(w, ss, rt):
     w.open(tag, at, meta)
     for d in ss.get('definitions', []):
         w.text('Definition', _txt(d, rt),
-               [('language', d.get('language')), ('sourceSense', d.get('sourceSense'))],
+               _sp(d, rt) + [('language', d.get('language')), ('sourceSense', d.get('sourceSense'))],
                d.get('meta'))
     if ss.get('ili_definition'):
-        w.text('ILIDefinition', _txt(ss['ili_definition'], rt), [], ss['ili_definition'].get('meta'))
+        w.text('ILIDefinition', _txt(ss['ili_definition'], rt), _sp(ss['ili_definition'], rt),
+               ss['ili_definition'].get('meta'))
     for r in ss.get('relations', []):
         _relation(w, 'SynsetRelation', r)
     for x in ss.get('examples', []):
